@@ -38,7 +38,12 @@ def run(tier, replay=None):
             run.mismatch({"kind": m["mismatch"]["what"], "input": m["input"]}, m)
         run.traces += len(cases)
         allc += cases
-    run.evaluations = len(allc)
+    # the local zone is an input of every encode call (DateZone.tla): histories in which the zone changes between
+    # the construction of an encoder and its use, and between two uses
+    zc, zm, _, _ = C.emit_and_replay(run, "MC_DateZone", "MC_DateZone.cfg", "c09_zone", ["datezone"], timeout=900, workers=4)
+    for m in zm:
+        run.mismatch({"kind": m["mismatch"]["what"], "input": m["mismatch"].get("pattern", "")}, m)
+    run.evaluations = len(allc) + len(zc)
     run.nontrivial = sum(1 for c in allc if "{" in c["input"].replace("{{", "").replace("\\{", ""))
     if not run.mismatches and run.nontrivial < 1000:
         raise C.ToolError("vacuous run")
@@ -55,5 +60,8 @@ def run(tier, replay=None):
                        "around the call formatted with the pattern's format and zone (TZ = +05:30 so that utc and local "
                        "differ); a width applied to an opaque atom is not compared beyond the preceding text",
                        "the colour chosen per level is not compared, only that a style request precedes and a reset "
-                       "follows the highlighted group", "release-profile {R(..)} rendering is replayed in the thorough tier"]
+                       "follows the highlighted group",
+                       "zone changes are 4 POSIX TZ values (UTC0, JST-9, IST-5:30, NST3:30) set through the environment; "
+                       "all histories of 5 operations (set zone / build an encoder of one of 4 kinds / encode)",
+                       "release-profile {R(..)} rendering is replayed in the thorough tier"]
     return run.finish()
